@@ -9,7 +9,7 @@ from concurrent.futures import ThreadPoolExecutor
 from common import *  # noqa
 
 TARGET = "x86_64-unknown-linux-gnu"
-PKG_TARGET = os.path.join(BUILD, "cargo-pkg")
+PKG_TARGET = os.path.join(BUILD, "cargo-pkg" + os.environ.get("VERIF_CARGO_SUFFIX", ""))
 CARGO_LIBCNB = os.path.join(PKG_TARGET, "debug", "cargo-libcnb")
 LIBCNB_PKG_TOML = b'[buildpack]\nuri = "."\n'
 
@@ -17,7 +17,7 @@ LIBCNB_PKG_TOML = b'[buildpack]\nuri = "."\n'
 def build_tool():
     e = env_offline()
     e["CARGO_TARGET_DIR"] = PKG_TARGET
-    e["RUSTFLAGS"] = ""
+    e["RUSTFLAGS"] = os.environ.get("VERIF_TOOL_RUSTFLAGS", "")      # non-empty only for tools/coverage.sh
     rc, out = run(["cargo", "build", "--offline", "-q", "-p", "libcnb-cargo"], cwd=REPO, env=e, timeout=2400)
     if rc != 0:
         raise RuntimeError("cannot build cargo-libcnb:\n" + out[-3000:])
